@@ -49,6 +49,13 @@ func (e *Engine) call(fr *Frame, st *State, instr ssa.Instruction, c *ssa.CallCo
 		return e.callStatic(fr, st, f, nil, args, pos)
 	}
 	fv := e.val(fr, c.Value)
+	if ft, ok := fv.(T); ok {
+		// a call through a value of a named function type that has an assumed contract
+		if ec := e.P.Externs["functype:"+types.TypeString(c.Value.Type(), nil)]; ec != nil {
+			e.oblige(st, "safe-nil", e.exprLabel(fr.fn, pos, "call of function value"), tNot(tEq(ft, T{"nil_func", sFunc})), pos)
+			return e.applyContract(fr, st, ec, nil, c.Signature(), append([]Val{ft}, args...), pos)
+		}
+	}
 	return e.callValue(fr, st, fv, args, c.Signature(), pos)
 }
 
@@ -314,6 +321,22 @@ func (e *Engine) closureContract(fn *ssa.Function) *Contract {
 // conservativeCall: an in-module function without contract that is not inlined: everything
 // may have changed, nothing is known about the result.
 func (e *Engine) conservativeCall(fr *Frame, st *State, fn *ssa.Function, args []Val, pos token.Pos) Val {
+	if !e.mayTouchGhost(fn, map[*ssa.Function]bool{}) {
+		// the callee cannot reach any call that has a ghost effect (static call graph, checked
+		// on every run): everything but the ghost state may have changed
+		e.note("conservative summary (ghost state preserved) used for call to %s", fn)
+		saved := map[string]T{}
+		for name, sort := range e.heapSort {
+			if isGhostHeap(name) {
+				saved[name] = e.heap(st, name, sort)
+			}
+		}
+		e.havocAll(st)
+		for name, t := range saved {
+			st.heaps[name] = t
+		}
+		return e.freshOfType(st, fn.Signature.Results(), "r_"+fn.Name())
+	}
 	e.note("conservative summary used for call to %s (no contract, not inlined)", fn)
 	e.havocAll(st)
 	return e.freshOfType(st, fn.Signature.Results(), "r_"+fn.Name())
@@ -558,10 +581,16 @@ func (e *Engine) havocModifies(fr *Frame, st *State, c *Contract, args []Val) {
 			continue
 		}
 		items := e.evalModifies(fr, e.clauseFunc(c, cl), args, st)
-		e.applyModItems(st, items, func(h string, loc func(x T) T) {
+		e.applyModItems(st, items, func(h string, loc func(x T) T, exact []T) {
 			// caller side: heap h is replaced by a fresh array equal to the old one outside the footprint
 			old := e.heap(st, h, e.heapSort[h])
-			e.recWild(h)
+			if exact != nil {
+				for _, r := range exact {
+					e.recStore(st, h, r)
+				}
+			} else {
+				e.recWild(h)
+			}
 			nv := e.fresh(old.Sort, "hv_"+h)
 			if loc != nil {
 				e.emit(fmt.Sprintf("(assert (forall ((x Ref)) (! (=> (not %s) (= (select %s x) (select %s x))) :pattern ((select %s x)))))", loc(T{"x", sRef}).S, nv.S, old.S, nv.S))
@@ -576,7 +605,7 @@ func (e *Engine) havocModifies(fr *Frame, st *State, c *Contract, args []Val) {
 // applyModItems interprets the ["kind", value, ...] list of a modifies clause.  For every
 // heap that may change, onHeap is called with a predicate describing the footprint (nil =
 // the whole heap).  collect, when non-nil, only records the footprint (callee-side frame check).
-func (e *Engine) applyModItems(st *State, items []Val, onHeap func(h string, inFootprint func(x T) T), collect *footprint) {
+func (e *Engine) applyModItems(st *State, items []Val, onHeap func(h string, inFootprint func(x T) T, exact []T), collect *footprint) {
 	fp := &footprint{heaps: map[string][]func(x T) T{}}
 	i := 0
 	for i < len(items) {
@@ -622,26 +651,40 @@ func (e *Engine) applyModItems(st *State, items []Val, onHeap func(h string, inF
 			continue
 		}
 		if whole {
-			onHeap(h, nil)
+			onHeap(h, nil, nil)
 			continue
 		}
 		ps := preds
+		var exact []T
+		if len(fp.exact[h]) == len(ps) {
+			exact = fp.exact[h]
+		}
 		onHeap(h, func(x T) T {
 			r := tFalse
 			for _, p := range ps {
 				r = tOr(r, p(x))
 			}
 			return r
-		})
+		}, exact)
 	}
 }
 
 type footprint struct {
 	everything bool
 	heaps      map[string][]func(x T) T // nil entry = whole heap
+	exact      map[string][]T          // objects named exactly by the predicates of heaps[h] (same length when all are exact)
 }
 
 func (f *footprint) add(h string, p func(x T) T) { f.heaps[h] = append(f.heaps[h], p) }
+
+// addObj: the footprint in heap h is exactly object r.
+func (f *footprint) addObj(h string, r T) {
+	f.heaps[h] = append(f.heaps[h], func(x T) T { return tEq(x, r) })
+	if f.exact == nil {
+		f.exact = map[string][]T{}
+	}
+	f.exact[h] = append(f.exact[h], r)
+}
 
 // footprintOf adds the heaps/locations named by one modifies item.
 func (e *Engine) footprintOf(st *State, fp *footprint, kind string, it modItem) {
@@ -660,9 +703,8 @@ func (e *Engine) footprintOf(st *State, fp *footprint, kind string, it modItem) 
 	case "loc":
 		switch p := it.v.(type) {
 		case *FieldPtr:
-			b := p.base
 			e.heapSort[p.heap] = arraySort(sRef, e.sortOf(p.ftype))
-			fp.add(p.heap, func(x T) T { return tEq(x, b) })
+			fp.addObj(p.heap, p.base)
 		case *GlobalPtr:
 			e.heapSort[e.globalName(p.g)] = e.sortOf(deref(p.g.Type()))
 			fp.add(e.globalName(p.g), nil)
@@ -691,7 +733,7 @@ func (e *Engine) footprintOf(st *State, fp *footprint, kind string, it modItem) 
 		}
 		hn, hs := e.elemHeap(et)
 		e.heapSort[hn] = hs
-		fp.add(hn, func(x T) T { return tEq(x, base) })
+		fp.addObj(hn, base)
 	}
 }
 
@@ -706,8 +748,7 @@ func (e *Engine) objFootprint(st *State, fp *footprint, r T, pt types.Type) {
 			}
 			hn := e.fieldHeapName(skey, s, i)
 			e.heapSort[hn] = arraySort(sRef, e.sortOf(ft))
-			rr := r
-			fp.add(hn, func(x T) T { return tEq(x, rr) })
+			fp.addObj(hn, r)
 		}
 		return
 	}
@@ -716,7 +757,7 @@ func (e *Engine) objFootprint(st *State, fp *footprint, r T, pt types.Type) {
 	}
 	hn, hs := e.pointeeHeap(pt)
 	e.heapSort[hn] = hs
-	fp.add(hn, func(x T) T { return tEq(x, r) })
+	fp.addObj(hn, r)
 }
 
 // purePkgs: library packages whose exported functions neither read nor write program state
@@ -914,4 +955,97 @@ func (e *Engine) isOld(v T) T {
 		return T{fmt.Sprintf("(=> ((_ is if_ref) %s) (= (newid (iref %s)) 0))", v.S, v.S), sBool}
 	}
 	return tTrue
+}
+
+func isGhostHeap(name string) bool {
+	return strings.HasPrefix(name, "G_") && strings.Contains(name, "_Gvc") || strings.HasPrefix(name, "F_") && strings.Contains(name, "_Gvc")
+}
+
+// effectMethods: names of interface methods / function types whose assumed contract has a ghost effect.
+func (e *Engine) effectMethods() (map[string]bool, bool) {
+	if e.effMethods != nil {
+		return e.effMethods, e.effFuncTypes
+	}
+	e.effMethods = map[string]bool{}
+	for key, c := range e.P.Externs {
+		has := false
+		for _, cl := range c.Clauses {
+			if cl.Kind == "effect" {
+				has = true
+			}
+		}
+		if !has {
+			continue
+		}
+		if strings.HasPrefix(key, "functype:") {
+			e.effFuncTypes = true
+			continue
+		}
+		e.effMethods[c.FuncName] = true
+	}
+	return e.effMethods, e.effFuncTypes
+}
+
+// mayTouchGhost: can fn (transitively, over static calls and closures) reach a call that
+// has a ghost effect?  Dynamic calls of unknown function values count as "yes".
+func (e *Engine) mayTouchGhost(fn *ssa.Function, seen map[*ssa.Function]bool) bool {
+	if seen[fn] {
+		return false
+	}
+	seen[fn] = true
+	if c := e.P.ByFunc[fn]; c != nil {
+		for _, cl := range c.Clauses {
+			if cl.Kind == "effect" {
+				return true
+			}
+			if cl.Kind == "modifies" && strings.Contains(cl.Expr, "Gvc") {
+				return true
+			}
+		}
+		if c.Trusted {
+			return false
+		}
+	}
+	pk := fn.Pkg
+	if pk == nil && fn.Origin() != nil {
+		pk = fn.Origin().Pkg
+	}
+	if len(fn.Blocks) == 0 || pk != nil && !e.inModule(pk.Pkg.Path()) && fn.Parent() == nil {
+		// library function: assumed not to call into the module except through the function
+		// values it is given (closures are scanned where they are created)
+		return false
+	}
+	meths, _ := e.effectMethods()
+	for _, b := range fn.Blocks {
+		for _, in := range b.Instrs {
+			switch x := in.(type) {
+			case *ssa.MakeClosure:
+				if f, ok := x.Fn.(*ssa.Function); ok && e.mayTouchGhost(f, seen) {
+					return true
+				}
+			case ssa.CallInstruction:
+				c := x.Common()
+				if c.IsInvoke() {
+					if meths[c.Method.Name()] {
+						return true
+					}
+					continue
+				}
+				switch f := c.Value.(type) {
+				case *ssa.Builtin:
+				case *ssa.Function:
+					if e.mayTouchGhost(f, seen) {
+						return true
+					}
+				case *ssa.MakeClosure:
+					if g, ok := f.Fn.(*ssa.Function); ok && e.mayTouchGhost(g, seen) {
+						return true
+					}
+				default:
+					return true // dynamic call of an unknown function value
+				}
+			}
+		}
+	}
+	return false
 }
